@@ -174,7 +174,8 @@ def main():
     if a.build_all:
         tus = []
         for pid, c in sorted(REG.CHECKS.items()):
-            tus += c['tus']
+            if pid in REG.CLAIMED:
+                tus += c['tus']
         ok = True
         with cf.ThreadPoolExecutor(NPROC) as ex:
             for tu, (path, dt, cached) in zip(tus, ex.map(lambda t: build_tu(t, a.repo, inc_hash, eng_hash), tus)):
